@@ -8,8 +8,8 @@ NOT_YET = json.load(open(os.path.join(VERIF, "tools", "not_claimed.json")))
 checks, na = [], []
 for pid in props:
     p = os.path.join(VERIF, "props", pid.lower() + ".py")
-    if os.path.exists(p):
-        m = importlib.import_module("props." + pid.lower())
+    m = importlib.import_module("props." + pid.lower()) if os.path.exists(p) else None
+    if m is not None and getattr(m, "READY", False):
         d = dict(m.MANIFEST)
         c = {"property_id": pid,
              "quick_cmd": "./check %s --tier quick" % pid,
